@@ -3,10 +3,15 @@ C06 — SAGE is exact on one-negative-term signomials; bounds ignore reparametri
 Property theorems about the semantic AGE certificate (`Lemmas/AgeCert.lean`).
 -/
 import SageoptModel.Lemmas.AgeCert
+import SageoptModel.Lemmas.AgeInvBasic
+import SageoptModel.Lemmas.AgeInvCircuit
+import Mathlib.Analysis.SpecialFunctions.Pow.Real
 
 namespace Sageopt.Props.C06
 open Sageopt.Analysis
 open scoped BigOperators
+
+set_option linter.unusedVariables false
 
 variable {ι : Type} {n : ℕ}
 
@@ -16,5 +21,219 @@ theorem ordAge_sound (α : ι → Fin n → ℝ) (i : ι) (S : Finset ι) (hi : 
     0 ≤ c i * Real.exp (dotp (α i) x) + ∑ j ∈ S, c j * Real.exp (dotp (α j) x) := by
   obtain ⟨ν, epi, h1, h2, h3⟩ := h
   exact ord_age_sound α i S hi c ν epi h1 h2 h3 x
+
+/-- TRANSLATION `x ↦ x + t` multiplies the coefficient of `e^{α_j·x}` by `e^{α_j·t}`: the certificate is invariant -/
+theorem ordAge_translate (α : ι → Fin n → ℝ) (i : ι) (S : Finset ι) (c : ι → ℝ) (t : Fin n → ℝ) :
+    OrdAgeCert α i S c ↔ OrdAgeCert α i S (fun j => c j * Real.exp (dotp (α j) t)) :=
+  ai_translate α i S c t
+
+/-- LINEAR CHANGE OF VARIABLES `x = M y` replaces the exponents by `α M`: a certificate is carried along -/
+theorem ordAge_linear {m : ℕ} (α : ι → Fin n → ℝ) (i : ι) (S : Finset ι) (c : ι → ℝ) (M : Fin n → Fin m → ℝ)
+    (h : OrdAgeCert α i S c) :
+    OrdAgeCert (fun j l => ∑ k, α j k * M k l) i S c :=
+  ai_linear α i S c M h
+
+/-- for an INVERTIBLE change of variables the certificates correspond exactly -/
+theorem ordAge_linear_iff (α : ι → Fin n → ℝ) (i : ι) (S : Finset ι) (c : ι → ℝ) (M Minv : Fin n → Fin n → ℝ)
+    (hinv : ∀ k k', ∑ l, M k l * Minv l k' = if k = k' then 1 else 0) :
+    OrdAgeCert α i S c ↔ OrdAgeCert (fun j l => ∑ k, α j k * M k l) i S c :=
+  ai_linear_iff α i S c M Minv hinv
+
+/-- POSITIVE SCALING -/
+theorem ordAge_scale (α : ι → Fin n → ℝ) (i : ι) (S : Finset ι) (c : ι → ℝ) (a : ℝ) (ha : 0 < a) :
+    OrdAgeCert α i S c ↔ OrdAgeCert α i S (fun j => a * c j) :=
+  ai_scale α i S c a ha
+
+/-- SHIFT of all exponents by `β` (multiplication of the signomial by the monomial `e^{β·x}`: the step from ell to ell + 1
+    multiplies by a sum of such monomials) -/
+theorem ordAge_shift (α : ι → Fin n → ℝ) (i : ι) (S : Finset ι) (c : ι → ℝ) (β : Fin n → ℝ) :
+    OrdAgeCert α i S c ↔ OrdAgeCert (fun j k => α j k + β k) i S c :=
+  ai_shift α i S c β
+
+/-- RE-INDEXING (permutation of the terms) -/
+theorem ordAge_reindex {ι' : Type} (e : ι' ≃ ι) (α : ι → Fin n → ℝ) (i : ι) (S : Finset ι) (c : ι → ℝ) :
+    OrdAgeCert α i S c ↔ OrdAgeCert (fun j => α (e j)) (e.symm i) (S.map e.symm.toEmbedding) (fun j => c (e j)) :=
+  ai_reindex e α i S c
+
+/-- a LARGER COVER only helps, as long as the added coefficients are nonnegative: cover reductions can lose certificates,
+    never create wrong ones -/
+theorem ordAge_cover_mono (α : ι → Fin n → ℝ) (i : ι) (S S' : Finset ι) (hS : S ⊆ S') (c : ι → ℝ)
+    (hc : ∀ j ∈ S', j ∉ S → 0 ≤ c j) (h : OrdAgeCert α i S c) : OrdAgeCert α i S' c :=
+  ai_cover_mono α i S S' hS c hc h
+
+/-- CIRCUIT COMPLETENESS (closed form): if the inner exponent is the convex combination `Σ λ_j α_j` of the outer ones with positive
+    weights, the outer coefficients are positive and the inner coefficient is at least `−∏ (c_j/λ_j)^{λ_j}` (minus the circuit number),
+    then a certificate exists -/
+theorem circuit_complete (α : ι → Fin n → ℝ) (i : ι) (S : Finset ι) (hSne : S.Nonempty) (c lam : ι → ℝ)
+    (hlam : ∀ j ∈ S, 0 < lam j) (hsum : ∑ j ∈ S, lam j = 1)
+    (hconv : ∀ k : Fin n, α i k = ∑ j ∈ S, lam j * α j k)
+    (hc : ∀ j ∈ S, 0 < c j)
+    (hbeta : -(c i) ≤ ∏ j ∈ S, (c j / lam j) ^ (lam j)) :
+    OrdAgeCert α i S c :=
+  ai_circuit_complete α i S c lam hlam hsum hconv hc hbeta
+
+/-! ### the midpoint circuit `c₀ + c₂ e^{2x} − β eˣ` (exponents 0, 1, 2 in one variable) -/
+
+/-- exponents `0, 1, 2` in one variable -/
+private def mα : Fin 3 → Fin 1 → ℝ := fun j _ => (j : ℝ)
+
+/-- coefficients `c₀, −β, c₂` -/
+private def mc (c0 c2 β : ℝ) : Fin 3 → ℝ := fun j => if j = 0 then c0 else if j = 1 then -β else c2
+
+private theorem mc_0 (c0 c2 β : ℝ) : mc c0 c2 β 0 = c0 := by simp [mc]
+private theorem mc_1 (c0 c2 β : ℝ) : mc c0 c2 β 1 = -β := by simp [mc]
+private theorem mc_2 (c0 c2 β : ℝ) : mc c0 c2 β 2 = c2 := by simp [mc]
+
+private theorem mα_dot (j : Fin 3) (x : ℝ) : dotp (mα j) (fun _ => x) = (j : ℝ) * x := by
+  simp [dotp, mα]
+
+/-- what soundness says on the midpoint circuit -/
+private theorem midpoint_sound (c0 c2 β : ℝ) (h : OrdAgeCert mα 1 {0, 2} (mc c0 c2 β)) (x : ℝ) :
+    0 ≤ c0 + c2 * Real.exp (2 * x) - β * Real.exp x := by
+  have hs := ordAge_sound mα 1 {0, 2} (by decide) (mc c0 c2 β) h (fun _ => x)
+  rw [Finset.sum_pair (by decide), mα_dot, mα_dot, mα_dot, mc_0, mc_1, mc_2] at hs
+  have e0 : (((0 : Fin 3) : ℕ) : ℝ) * x = 0 := by simp
+  have e1 : (((1 : Fin 3) : ℕ) : ℝ) * x = x := by simp
+  have e2 : (((2 : Fin 3) : ℕ) : ℝ) * x = 2 * x := by simp
+  rw [e0, e1, e2, Real.exp_zero] at hs
+  linarith
+
+/-- and completeness on the midpoint circuit -/
+private theorem midpoint_cert (c0 c2 β : ℝ) (h0 : 0 < c0) (h2 : 0 < c2) (hβ : β ≤ 2 * Real.sqrt (c0 * c2)) :
+    OrdAgeCert mα 1 {0, 2} (mc c0 c2 β) := by
+  apply ai_midpoint_cert mα 1 0 2 (by decide) (mc c0 c2 β)
+  · rw [mc_0]; exact h0
+  · rw [mc_2]; exact h2
+  · intro k; simp [mα]
+  · rw [mc_0, mc_1, mc_2, neg_neg]; exact hβ
+
+/-- the converse fails: dropping an index from the cover can destroy the certificate (this is F10's mechanism):
+    with exponents 0, 1, 2 and coefficients 1, −2, 1 the full cover {0, 2} certifies `(eˣ − 1)² ≥ 0`, the cover {0} does not -/
+theorem ordAge_cover_drop_loses :
+    ∃ (α : Fin 3 → Fin 1 → ℝ) (c : Fin 3 → ℝ),
+      OrdAgeCert α 1 {0, 2} c ∧ ¬ OrdAgeCert α 1 {0} c := by
+  refine ⟨mα, mc 1 1 2, ?_, ?_⟩
+  · -- ν₀ = ν₂ = 1, epi₀ = epi₂ = −1
+    refine ⟨fun _ => 1, fun _ => -1, ?_, ?_, ?_⟩
+    · intro j hj
+      have hcj : mc 1 1 2 j = 1 := by
+        rw [Finset.mem_insert, Finset.mem_singleton] at hj
+        rcases hj with rfl | rfl
+        · exact mc_0 _ _ _
+        · exact mc_2 _ _ _
+      rw [hcj]
+      left
+      refine ⟨one_pos, ?_⟩
+      simp
+    · rw [Finset.sum_pair (by decide), mc_1]; norm_num
+    · intro k
+      rw [Finset.sum_pair (by decide)]
+      simp [mα]; norm_num
+  · rintro ⟨ν, epi, h1, h2, h3⟩
+    have hb := h3 0
+    rw [Finset.sum_singleton] at hb
+    have hν : ν 0 = 0 := by
+      have e : ν 0 * (mα 0 0 - mα 1 0) = -(ν 0) := by simp [mα]
+      rw [e] at hb; linarith
+    have hrow := h1 0 (Finset.mem_singleton_self 0)
+    rw [Finset.sum_singleton, mc_1] at h2
+    rcases hrow with ⟨hpos, _⟩ | ⟨_, hx, _⟩
+    · rw [hν] at hpos; exact lt_irrefl _ hpos
+    · linarith
+
+/-- and the circuit number is sharp on the midpoint circuit `c₀ + c₂ e^{2x} − β eˣ`: nonnegative on ℝ iff `β ≤ 2 √(c₀ c₂)` iff certified -/
+theorem midpoint_circuit_exact (c0 c2 β : ℝ) (h0 : 0 < c0) (h2 : 0 < c2) :
+    ((∀ x : ℝ, 0 ≤ c0 + c2 * Real.exp (2 * x) - β * Real.exp x) ↔ β ≤ 2 * Real.sqrt (c0 * c2)) ∧
+    (β ≤ 2 * Real.sqrt (c0 * c2) ↔
+      OrdAgeCert (fun (j : Fin 3) (_ : Fin 1) => (j : ℝ)) 1 {0, 2} (fun j => if j = 0 then c0 else if j = 1 then -β else c2)) := by
+  refine ⟨ai_midpoint_nonneg_iff c0 c2 β h0 h2, fun hβ => midpoint_cert c0 c2 β h0 h2 hβ, fun h => ?_⟩
+  exact (ai_midpoint_nonneg_iff c0 c2 β h0 h2).mp (midpoint_sound c0 c2 β h)
+
+/-! ### instances: the circuit `1 + e^{2x} − 2 eˣ = (eˣ − 1)²` (the extremal case `β = 2 √(c₀ c₂)`) and relatives -/
+
+private theorem two_le : (2 : ℝ) ≤ 2 * Real.sqrt (1 * 1) := by simp
+
+/-- the certificate of `1 + e^{2x} − 2 eˣ` -/
+private theorem sq_cert : OrdAgeCert mα 1 {0, 2} (mc 1 1 2) := midpoint_cert 1 1 2 one_pos one_pos two_le
+
+/-- `midpoint_circuit_exact` at `c₀ = c₂ = 1`, `β = 2`: all three statements hold; at `β = 3` all three fail -/
+example : (∀ x : ℝ, 0 ≤ 1 + 1 * Real.exp (2 * x) - 2 * Real.exp x) ∧ OrdAgeCert mα 1 {0, 2} (mc 1 1 2) :=
+  ⟨(midpoint_circuit_exact 1 1 2 one_pos one_pos).1.mpr two_le, (midpoint_circuit_exact 1 1 2 one_pos one_pos).2.mp two_le⟩
+
+example : ¬ OrdAgeCert mα 1 {0, 2} (mc 1 1 3) := by
+  intro h
+  have := (midpoint_circuit_exact 1 1 3 one_pos one_pos).2.mpr h
+  simp at this
+  linarith
+
+/-- `ordAge_sound`: the certificate gives `(eˣ − 1)² ≥ 0` in expanded form -/
+example (x : Fin 1 → ℝ) :
+    0 ≤ mc 1 1 2 1 * Real.exp (dotp (mα 1) x) + ∑ j ∈ ({0, 2} : Finset (Fin 3)), mc 1 1 2 j * Real.exp (dotp (mα j) x) :=
+  ordAge_sound mα 1 {0, 2} (by decide) (mc 1 1 2) sq_cert x
+
+/-- `ordAge_translate`: `x ↦ x + 5` turns the coefficients into `1, −2e⁵, e¹⁰` -/
+example : OrdAgeCert mα 1 {0, 2} (fun j => mc 1 1 2 j * Real.exp (dotp (mα j) (fun _ => 5))) :=
+  (ordAge_translate mα 1 {0, 2} (mc 1 1 2) (fun _ => 5)).mp sq_cert
+
+/-- `ordAge_linear`: `x = y₀ + 3 y₁` -/
+example : OrdAgeCert (fun j l => ∑ k, mα j k * (fun (_ : Fin 1) (l : Fin 2) => if l = 0 then (1 : ℝ) else 3) k l) 1 {0, 2} (mc 1 1 2) :=
+  ordAge_linear mα 1 {0, 2} (mc 1 1 2) _ sq_cert
+
+/-- `ordAge_linear_iff`: `x = 2 y`, inverse `y = x / 2` -/
+example : OrdAgeCert (fun j l => ∑ k, mα j k * (fun (_ _ : Fin 1) => (2 : ℝ)) k l) 1 {0, 2} (mc 1 1 2) :=
+  (ordAge_linear_iff mα 1 {0, 2} (mc 1 1 2) (fun _ _ => 2) (fun _ _ => 1 / 2)
+    (by intro k k'; simp [Subsingleton.elim k k'])).mp sq_cert
+
+/-- `ordAge_scale`: `3 + 3 e^{2x} − 6 eˣ` -/
+example : OrdAgeCert mα 1 {0, 2} (fun j => 3 * mc 1 1 2 j) :=
+  (ordAge_scale mα 1 {0, 2} (mc 1 1 2) 3 (by norm_num)).mp sq_cert
+
+/-- `ordAge_shift`: multiplication by `e^{7x}` -/
+example : OrdAgeCert (fun j k => mα j k + (fun _ => (7 : ℝ)) k) 1 {0, 2} (mc 1 1 2) :=
+  (ordAge_shift mα 1 {0, 2} (mc 1 1 2) (fun _ => 7)).mp sq_cert
+
+/-- `ordAge_reindex`: swapping the terms 0 and 1 (the inner term becomes term 0, the cover `{1, 2}`) -/
+example : OrdAgeCert (fun j => mα (Equiv.swap 0 1 j)) 0 {1, 2} (fun j => mc 1 1 2 (Equiv.swap 0 1 j)) := by
+  have h := (ordAge_reindex (Equiv.swap (0 : Fin 3) 1) mα 1 {0, 2} (mc 1 1 2)).mp sq_cert
+  have e1 : (Equiv.swap (0 : Fin 3) 1).symm 1 = 0 := by decide
+  have e2 : ({0, 2} : Finset (Fin 3)).map (Equiv.swap (0 : Fin 3) 1).symm.toEmbedding = {1, 2} := by decide
+  rw [e1, e2] at h
+  exact h
+
+/-- exponents `0, 1, 2, 3` in one variable and the coefficients `1, −2, 1, 5` of `1 − 2eˣ + e^{2x} + 5e^{3x}` -/
+private def qα : Fin 4 → Fin 1 → ℝ := fun j _ => (j : ℝ)
+private def qc : Fin 4 → ℝ := fun j => if j = 1 then -2 else if j = 3 then 5 else 1
+
+private theorem q_cert : OrdAgeCert qα 1 {0, 2} qc := by
+  apply ai_midpoint_cert qα 1 0 2 (by decide) qc
+  · simp [qc]
+  · simp [qc]
+  · intro k; simp [qα]
+  · simp [qc]
+
+/-- `ordAge_cover_mono`: the cover `{0, 2}` is enlarged by the term `5 e^{3x}` -/
+example : OrdAgeCert qα 1 {0, 2, 3} qc :=
+  ordAge_cover_mono qα 1 {0, 2} {0, 2, 3} (by decide) qc
+    (by
+      intro j hj hj'
+      have : j = 3 := by revert j; decide
+      subst this; simp [qc])
+    q_cert
+
+/-- `circuit_complete`: weights `½, ½` on the cover `{0, 2}` of `1 − 2eˣ + e^{2x}`; the circuit number is `2` -/
+example : OrdAgeCert mα 1 {0, 2} (mc 1 1 2) :=
+  circuit_complete mα 1 {0, 2} ⟨0, by decide⟩ (mc 1 1 2) (fun _ => 1 / 2)
+    (by intro j _; norm_num)
+    (by rw [Finset.sum_pair (by decide)]; norm_num)
+    (by intro k; rw [Finset.sum_pair (by decide)]; simp [mα])
+    (by
+      intro j hj
+      rw [Finset.mem_insert, Finset.mem_singleton] at hj
+      rcases hj with rfl | rfl
+      · rw [mc_0]; exact one_pos
+      · rw [mc_2]; exact one_pos)
+    (by
+      rw [Finset.prod_pair (by decide), mc_0, mc_1, mc_2, ai_midpoint_theta 1 1 one_pos one_pos]
+      simp)
 
 end Sageopt.Props.C06
